@@ -3,7 +3,7 @@
    The theorems speak about the SeaORM *declarations* [members] (tied to the real exporter by K-exp on every
    run).  The Python half of the property ("syntactically valid, imports cover every name") is decided by the
    ast-based oracle only: C17 is partial there. *)
-From VV.EXP Require Import Names NamesP UniqueP.
+From VV.EXP Require Import Imports Names ImportsP NamesP UniqueP.
 
 Theorem C17_unique_name_fresh : forall base used n, unique_name base used = Some n -> mem_str n used = false.
 Proof. exact unique_name_fresh. Qed.
@@ -67,6 +67,28 @@ Print Assumptions C17_refs_exist.
 Check C17_refs_exist : forall s t d,
   fk_closed s = true -> In t s -> members s t = Ok d ->
   forall m e, In m (d_members d) -> In e (member_entity m) -> table_exists s e = true.
+
+(* SQLModel (fix e0ae11e): the module imports `text` iff some column renders text("...") — for ALL defaults: the
+   helper deciding the import and the if-chain of render_column agree on every string (K-exp ties both to the code:
+   sub-check 3 the import block, sub-check 5 the columns that use text) *)
+Theorem C17_default_uses_text_spec : forall s, default_uses_text s = kind_is_text (sqlmodel_default_kind s).
+Proof. exact default_uses_text_spec. Qed.
+Print Assumptions C17_default_uses_text_spec.
+Check C17_default_uses_text_spec : forall s, default_uses_text s = kind_is_text (sqlmodel_default_kind s).
+
+Theorem C17_sqlmodel_text_import_iff : forall t,
+  sqlmodel_needs_text t = true <-> exists c, In c (t_columns t) /\ sqlmodel_column_uses_text c = true.
+Proof. exact sqlmodel_text_import_iff. Qed.
+Print Assumptions C17_sqlmodel_text_import_iff.
+Check C17_sqlmodel_text_import_iff : forall t,
+  sqlmodel_needs_text t = true <-> exists c, In c (t_columns t) /\ sqlmodel_column_uses_text c = true.
+
+Theorem C17_sqlmodel_sa_line_text : forall t,
+  sqlmodel_needs_text t = true <-> exists l, sqlmodel_sa_line t = [l] /\ ends_with "text" l = true.
+Proof. exact sqlmodel_sa_line_text. Qed.
+Print Assumptions C17_sqlmodel_sa_line_text.
+Check C17_sqlmodel_sa_line_text : forall t,
+  sqlmodel_needs_text t = true <-> exists l, sqlmodel_sa_line t = [l] /\ ends_with "text" l = true.
 
 (* the full-strength statement for the SeaORM declarations (a definition, not a claim): FALSE, see D14 *)
 Definition C17_full_statement : Prop :=
